@@ -75,6 +75,12 @@ Theorem C11_knot_eq_zoh_duplicate_last_knot_refuted :
     t == nth (start d t w es + (w - 1)) (map (mask false d) es) 0 /\
     ~ nth 0 (apply_linear false d t w es fp) 0 == nth 0 (zoh d t w es fp) 0.
 Proof. exact dup_last_knot_witness. Qed.
+Theorem C11_knot_eq_zoh_dummy_slot_refuted :
+  exists d t w es fp, (1 <= w)%nat /\ (w <= length es)%nat /\ length fp = length es /\ nondec (knots false d es fp) /\
+    t == nth (start d t w es + (w - 1)) (map (mask false d) es) 0 /\
+    nth 1 (apply_linear false d t w es fp) 0 == nth 1 (zoh d t w es fp) 0 /\
+    ~ nth 0 (apply_linear false d t w es fp) 0 == nth 0 (zoh d t w es fp) 0.
+Proof. exact dup_knot_dummy_slot_witness. Qed.
 Print Assumptions C11_knot_eq_zoh.
 
 (* (5) continuity in the delay: Lipschitz with any bound L on the finite-difference slopes of the signal *)
